@@ -142,6 +142,13 @@ func (m *MonC12) OnStepEnd(w *World, step int) {
 					if gets[k] != 0 {
 						m.violate(w, "refetch_while_resetting", "system.reset %s: %s already had a re-fetch outstanding but another get was sent", op.P, k)
 					}
+				case r.State == 2 && !r.Resetting:
+					// cached, its initial get outstanding: the answer to that get may
+					// predate what the reset announces, so it is fetched again
+					m.class("reset_while_initial_get_outstanding")
+					if gets[k] != 1 {
+						m.violate(w, "refetch_count", "system.reset %s: cached resource %s (initial get outstanding) matches but was re-fetched %d times (expected once)", op.P, k, gets[k])
+					}
 				}
 				delete(gets, k)
 			}
